@@ -511,6 +511,28 @@ def check(prop: str, tier: str, replay: Optional[str]) -> int:
                 tail, _ = random_wellformed(rng, nids, [rng.randint(1, 40)], txdl, False, 0.0)
                 frames += tail
             hs.append((frames, nids, rng.random() < 0.3))
+    if prop == "C13":
+        # the same faulty streams read from candump text: the readers must neither raise nor report anything but what the
+        # frames fed one by one give
+        for (frames, nids, _active) in hs:
+            m = make_machine(nids, False)
+            direct: List[Tuple[int, List[int]]] = []
+            bad = False
+            for (mid, f) in frames:
+                if not f:
+                    continue
+                ob = feed(m, mid, f, False)
+                bad = bad or bool(ob["exc"])
+                direct += [(mid, t) for t in ob["out"]]
+            if bad:
+                continue          # reported by the trace validation below
+            for fmt in ("normal", "log"):
+                got, exc = read_log(render_log(frames, fmt), nids)
+                stats["log_walks"] = stats.get("log_walks", 0) + 1
+                if exc or got != direct:
+                    v.fail("log_differs_from_frames", {"machine": "IsoTp", "origin": f"log:{fmt}", "nids": nids, "active": False,
+                                                       "frames": [[i, f] for (i, f) in frames], "expected_reports": direct, "got": got,
+                                                       "exc": exc, "frame_kind": "log"})
     judge(hs, "random")
     samples.append({"random_stream": [[i, bytes(f).hex()] for (i, f) in hs[0][0][:6]]})
     cov = {"states": states, "transitions": transitions,
